@@ -187,7 +187,7 @@ def contract(key, **kw):
 class Predicate:
     def __init__(self, name, params, body):
         self.name = name
-        self.params = [(p.split(":")[0].strip(), parse_type(p.split(":", 1)[1])) for p in params]
+        self.params = [(p.split(":")[0].strip(), parse_type(p.split(":", 1)[1])) for p in params if p.strip()]
         self.body = body
         self.node = ast.parse("(" + body.strip() + ")", mode="eval").body
 
@@ -212,8 +212,9 @@ def axiom(name, text, lean=None):
 
 
 class Lemma:
-    def __init__(self, name, params, code, requires=(), props=()):
+    def __init__(self, name, params, code, requires=(), props=(), theories=()):
         props = list(props) if props else list(DEFAULT_PROPS)
+        self.theories = tuple(theories)
         self.name = name
         self.params = {k: parse_type(v) for k, v in params.items()}
         self.code = code
@@ -221,8 +222,8 @@ class Lemma:
         self.props = list(props)
 
 
-def lemma(name, params, code, requires=(), props=()):
-    LEMMAS[name] = Lemma(name, params, code, requires, props)
+def lemma(name, params, code, requires=(), props=(), theories=()):
+    LEMMAS[name] = Lemma(name, params, code, requires, props, theories)
 
 
 def structural(name, fn, props=()):
